@@ -36,7 +36,7 @@ CLAIMED["C15"] = dict(cat="exploration",
 CLAIMED["C16"] = dict(cat="exploration",
    text="Generated relational models over 1-3 files (acyclic FK graphs, composite/absent keys, autoinc, sized strings) and version chains from random edit scripts; emitted SQL is executed by a strict reference interpreter for exactly the emitted DDL subset (unknown statement = harness error). Create script: every table once, columns, PK, FKs, types, referenced-before-referencing. Delta: differential - catalog(create(old); delta) restricted to new's tables == catalog(create(new)); delta(v,v) changes nothing; chains of two deltas.",
    note="trusts the DDL interpreter's PostgreSQL rules for the subset; FK cycles are outside C16's domain (acyclic) and handled by C20",
-   technique="property-based testing with a reference DDL interpreter; differential oracle for deltas over generated edit histories")
+   technique="property-based testing with a reference DDL interpreter; differential oracle for deltas over generated edit histories; differential of the several-applications command (sysl generate-db-scripts -a Other,M) against the single-application library call")
 CLAIMED["C17"] = dict(cat="exploration",
    text="Corpus models (all .sysl files that compile) and generated models (deep statement nesting with siblings, typed return payloads with attributes, nested-array annotations, namespaced names, placeholders, events, mixins) are normalised by relmod.Normalize in a worker (2-5 times: equal relations as multisets, refusal stable) and every relation the property names is compared as a multiset of key tuples with an independent census of the compiled model, including full statement index paths.",
    note="census written from the property statement, not from normalize.go; bit width and parameter constraints have no column in the schema and are only counted",
